@@ -138,8 +138,13 @@ def suite(ctx, name, cases):
             st["known"] += 1; ctx.known("hist-shared", "")
             continue
         if not c.startswith(("COMPILE", "EMIT")) and "SAN:" not in c and charts.has_nested_targetless_pair(d):
-            st["known"] += 1; ctx.known("nested-targetless", "")
-            continue
+            # the recorded finding is precise: the machine selects like the transpilers do (every transition a candidate, static
+            # conflict table). Only a machine that behaves exactly like Appendix D with THAT selection is the known deviation
+            variant = "spectq" if c01.classify(d) else "spect"
+            _, T = E.run_batches(ctx, [E.case_line(variant, d, evs)], want_harness=False, nproc=1)
+            if "DIVERGE" in T[0] or "DIVERGE" in c or macro_c(c.split(" ")) == macro_s(T[0].split(" ")):
+                st["known"] += 1; ctx.known("nested-targetless", "")
+                continue
         if c.startswith("COMPILE"): st["compile_errors"] += 1
         if "SAN:" in c: st["sanitizer"] += 1
         st["violations"] += 1
